@@ -41,7 +41,12 @@ struct KvActor {
     /// cleanup waits for a permit (deterministic scenarios only)
     gate: Option<Arc<Semaphore>>,
     pace: u64,
+    /// this actor owns a subordinate supervisor and stops it from its own cleanup (scenario family `owner`)
+    owns: Option<(String, Slot)>,
+    /// extra time spent in cleanup (only widens race windows; the verdict is on event order)
+    slow_ms: u64,
 }
+type Slot = Arc<Mutex<Option<Supervisor>>>;
 
 async fn pause(rng: &mut Rng, pace: u64) {
     for _ in 0..rng.below(pace + 1) {
@@ -89,6 +94,17 @@ impl Actor for KvActor {
     fn cleanup(&mut self) -> impl Future<Output = ()> + Send {
         async {
             ev(json!({"a": "a_cleanup", "x": self.id}));
+            if let Some((sid, slot)) = self.owns.clone() {
+                let sub = slot.lock().expect("slot").take();
+                if let Some(sub) = sub {
+                    ev(json!({"a": "stop_issue", "s": sid}));
+                    sub.stop().await;
+                    ev(json!({"a": "stop_ret", "s": sid}));
+                }
+            }
+            if self.slow_ms > 0 {
+                tokio::time::sleep(Duration::from_millis(self.slow_ms)).await;
+            }
             if let Some(g) = self.gate.clone() {
                 if let Ok(p) = g.acquire().await {
                     p.forget();
@@ -114,13 +130,39 @@ struct Ctx {
     subs: Vec<String>,
     out: mpsc::UnboundedSender<(String, Supervisor)>,
     joins: Arc<Mutex<Vec<(String, JoinHandle<()>)>>>,
+    /// scenario family `owner` at root level: (owner registered first?, owner, worker, subordinate id, slot)
+    owner: Option<(bool, KvActor, KvActor, String, Slot)>,
 }
 impl RuntimeSetup for Ctx {
     type Error = ();
     fn setup(self, supervisor: &mut Supervisor) -> impl Future<Output = Result<(), ()>> + Send {
         async move {
             ev(json!({"a": "setup_begin"}));
-            let Ctx { actors, subs, out, joins } = self;
+            let Ctx { actors, subs, out, joins, owner } = self;
+            if let Some((owner_first, own, worker, sid, slot)) = owner {
+                let (oid, wid) = (own.id.clone(), worker.id.clone());
+                let mut own = Some(own);
+                if owner_first {
+                    ev(json!({"a": "spawn_begin", "x": oid, "p": "s0"}));
+                    let h = supervisor.spawn(own.take().expect("owner"));
+                    ev(json!({"a": "spawn_end", "x": oid, "p": "s0"}));
+                    joins.lock().expect("joins").push((oid.clone(), h));
+                }
+                ev(json!({"a": "sub_begin", "x": sid, "p": "s0"}));
+                let mut sub = supervisor.subordinate().await;
+                ev(json!({"a": "sub_end", "x": sid, "p": "s0"}));
+                ev(json!({"a": "spawn_begin", "x": wid, "p": sid}));
+                let h = sub.spawn(worker);
+                ev(json!({"a": "spawn_end", "x": wid, "p": sid}));
+                joins.lock().expect("joins").push((wid, h));
+                *slot.lock().expect("slot") = Some(sub);
+                if let Some(own) = own.take() {
+                    ev(json!({"a": "spawn_begin", "x": oid, "p": "s0"}));
+                    let h = supervisor.spawn(own);
+                    ev(json!({"a": "spawn_end", "x": oid, "p": "s0"}));
+                    joins.lock().expect("joins").push((oid, h));
+                }
+            }
             let mut acts = actors.into_iter();
             let mut subs = subs.into_iter();
             loop {
@@ -176,7 +218,7 @@ impl Run {
             2 => (self.rng.range(1, 3) as u32, Fin::Block),
             _ => (self.rng.range(1, 2) as u32, Fin::Stop),
         });
-        KvActor { id: format!("a{}", self.nact), ready, fin, rng: Rng::new(self.rng.next()), gate, pace: self.pace }
+        KvActor { id: format!("a{}", self.nact), ready, fin, rng: Rng::new(self.rng.next()), gate, pace: self.pace, owns: None, slow_ms: 0 }
     }
     fn is_closed(&self, s: &str) -> bool {
         let mut cur = s.to_string();
@@ -256,7 +298,9 @@ async fn one_run(seed: u64, scenario: &str, pace: u64) {
     let (tx, mut rx) = mpsc::unbounded_channel();
     let random = scenario == "random";
     // root level
-    let (nra, nrs) = if random { (rng.below(4), rng.range(1, 2)) } else { (0, 1) };
+    let base = scenario.trim_end_matches("-ct");
+    let (owner_first, settle) = (seed % 2 == 0, (seed / 2) % 3);
+    let (nra, nrs) = if random { (rng.below(4), rng.range(1, 2)) } else if base == "owner" { (0, 0) } else { (0, 1) };
     let mut ractors = vec![];
     for _ in 0..nra {
         ractors.push(run.actor(None, None));
@@ -271,7 +315,19 @@ async fn one_run(seed: u64, scenario: &str, pace: u64) {
         run.parent.insert(s.clone(), "s0".to_string());
     }
     let (source, sig_tx) = SoftwareSignalSource::new();
-    let ctx = Ctx { actors: ractors, subs: rsubs.clone(), out: tx, joins: joins.clone() };
+    let slot: Slot = Arc::new(Mutex::new(None));
+    let owner_plan = if base == "owner" {
+        // owner a1 under the primary supervisor holds subordinate s1 hosting worker a2 (slow cleanup)
+        let mut own = run.actor(None, Some((0, Fin::Block)));
+        let mut worker = run.actor(None, Some((0, Fin::Block)));
+        run.nsup += 1;
+        own.owns = Some(("s1".to_string(), slot.clone()));
+        worker.slow_ms = 3;
+        Some((owner_first, own, worker, "s1".to_string(), slot.clone()))
+    } else {
+        None
+    };
+    let ctx = Ctx { actors: ractors, subs: rsubs.clone(), out: tx, joins: joins.clone(), owner: owner_plan };
     ev(json!({"a": "exec_start"}));
     let exec = tokio::spawn(async move {
         let r = Runtime::new().exec(ctx, Handler, source).await;
@@ -290,7 +346,45 @@ async fn one_run(seed: u64, scenario: &str, pace: u64) {
         }
     }
     let mut signalled = false;
-    match scenario {
+    let do_settle = |k: u64| async move {
+        match k {
+            0 => {}
+            1 => {
+                for _ in 0..3 {
+                    tokio::task::yield_now().await;
+                }
+            }
+            _ => tokio::time::sleep(Duration::from_millis(3)).await,
+        }
+    };
+    match base {
+        // Scenario family (seeded C47): the runtime is terminated while the owner's cleanup stops its subordinate:
+        // the subordinate's task may find its Stop message AND its parent's notice pending in one poll.
+        "owner" => {
+            wait_for(|e| e["a"] == "setup_end").await;
+            do_settle(settle).await;
+        }
+        // Same race one level down: parent s1 (stopped by the controller) hosts owner a1 and subordinate s2 (worker a2)
+        "owner2" => {
+            let p = rsubs[0].clone();
+            let mut own = run.actor(None, Some((0, Fin::Block)));
+            let mut worker = run.actor(None, Some((0, Fin::Block)));
+            worker.slow_ms = 3;
+            let sid = format!("s{}", run.nsup + 1);
+            own.owns = Some((sid.clone(), slot.clone()));
+            let mut own = Some(own);
+            if owner_first {
+                run.spawn_on(&p, own.take().expect("owner"));
+            }
+            let c = run.sub_on(&p).await;
+            run.spawn_on(&c, worker);
+            *slot.lock().expect("slot") = run.handles.remove(&c);
+            if let Some(o) = own.take() {
+                run.spawn_on(&p, o);
+            }
+            do_settle(settle).await;
+            run.stop_inline(&p).await;
+        }
         "random" => {
             let nops = rng.range(5, 16);
             let sig_at = rng.below(nops + 3);
@@ -420,6 +514,12 @@ pub fn run(o: &Opts) -> i32 {
         for sc in o.str("scenarios", "").split(',').filter(|s| !s.is_empty()) {
             plan.push((sc.to_string(), rng.next() % 1_000_000_000));
         }
+        // scenario family `owner`: every (registration order x settle) variation, on both runtime flavours
+        for r in 0..o.u64("owner-rounds", 0) {
+            for sc in ["owner-ct", "owner2-ct", "owner", "owner2"] {
+                plan.push((sc.to_string(), (rng.next() % 100_000_000) * 6 + r % 6));
+            }
+        }
         for _ in 0..o.u64("runs", 0) {
             plan.push(("random".to_string(), rng.next() % 1_000_000_000));
         }
@@ -427,7 +527,13 @@ pub fn run(o: &Opts) -> i32 {
     let workers = o.u64("workers", 4) as usize;
     let mut hangs = 0;
     for (i, (sc, seed)) in plan.iter().enumerate() {
-        let rt = tokio::runtime::Builder::new_multi_thread().worker_threads(workers).enable_all().build().expect("rt");
+        // "-ct" scenarios run on a current-thread runtime: wake-ups are processed in a fixed order there, which
+        // makes "both stop reasons pending in one poll" frequent
+        let rt = if sc.ends_with("-ct") {
+            tokio::runtime::Builder::new_current_thread().enable_all().build().expect("rt")
+        } else {
+            tokio::runtime::Builder::new_multi_thread().worker_threads(workers).enable_all().build().expect("rt")
+        };
         take_log();
         let pace = 1 + (seed % 4);
         rt.block_on(one_run(*seed, sc, pace));
